@@ -17,7 +17,7 @@ VERIF = os.path.dirname(os.path.dirname(os.path.abspath(__file__)))
 REPO = os.environ.get("VERIF_REPO", "/repo")
 SPEC = os.path.join(VERIF, "spec")
 HARNESS = os.path.join(VERIF, "harness")
-BUILD = os.path.join(VERIF, ".build")
+BUILD = os.environ.get("VERIF_BUILD") or os.path.join(VERIF, ".build")
 GOENV = dict(os.environ, GOFLAGS="-mod=mod", GOPROXY="off", GOSUMDB="off",
              GOTOOLCHAIN="local", CGO_ENABLED="0")
 TLA_JAR = "/opt/veriftools/tla/tla2tools.jar"
@@ -382,11 +382,20 @@ def go_build(pkgs=("./cmd/vh",), tags="verif", outdir=None):
     """Build harness binaries against /repo's current working tree."""
     outdir = outdir or os.path.join(BUILD, "bin")
     os.makedirs(outdir, exist_ok=True)
+    harness = HARNESS
+    if os.path.realpath(REPO) != "/repo":
+        # checking another tree (e.g. a worktree with a seeded change): build a
+        # copy of the harness whose replace directive points there
+        harness = os.path.join(BUILD, "harness-src")
+        shutil.rmtree(harness, ignore_errors=True)
+        shutil.copytree(HARNESS, harness)
+        gm = open(os.path.join(harness, "go.mod")).read().replace("=> /repo", "=> " + os.path.realpath(REPO))
+        open(os.path.join(harness, "go.mod"), "w").write(gm)
     gosum = os.path.join(REPO, "go.sum")
     if os.path.exists(gosum):
-        shutil.copy(gosum, os.path.join(HARNESS, "go.sum"))
+        shutil.copy(gosum, os.path.join(harness, "go.sum"))
     cmd = ["go", "build", "-tags", tags, "-o", outdir + "/"] + list(pkgs)
-    p = subprocess.run(cmd, cwd=HARNESS, env=GOENV, stdout=subprocess.PIPE,
+    p = subprocess.run(cmd, cwd=harness, env=GOENV, stdout=subprocess.PIPE,
                        stderr=subprocess.STDOUT, text=True, timeout=900)
     if p.returncode != 0:
         raise Infra("go build failed (the tree must compile):\n" + p.stdout[-4000:])
@@ -437,7 +446,8 @@ def known_findings():
 
 
 def write_evidence(pid, tier, level, coverage, assumptions, wall, violations=0):
-    os.makedirs(os.path.join(VERIF, "evidence"), exist_ok=True)
+    evdir = os.path.join(os.environ.get("VERIF_OUT") or VERIF, "evidence")
+    os.makedirs(evdir, exist_ok=True)
     ev = {
         "property_id": pid,
         "tier": tier,
@@ -448,7 +458,7 @@ def write_evidence(pid, tier, level, coverage, assumptions, wall, violations=0):
         "wall_s": round(wall, 2),
         "violations": violations,
     }
-    p = os.path.join(VERIF, "evidence", pid + ".json")
+    p = os.path.join(evdir, pid + ".json")
     tmp = p + ".tmp"
     with open(tmp, "w") as f:
         json.dump(ev, f, indent=1, sort_keys=False, default=str)
@@ -458,7 +468,7 @@ def write_evidence(pid, tier, level, coverage, assumptions, wall, violations=0):
 
 def save_replay(pid, name, files):
     """files: {relative name: text or bytes or path-to-copy (prefix '@')}"""
-    d = os.path.join(VERIF, "replays", pid, name)
+    d = os.path.join(os.environ.get("VERIF_OUT") or VERIF, "replays", pid, name)
     os.makedirs(d, exist_ok=True)
     for k, v in files.items():
         dst = os.path.join(d, k)
